@@ -300,6 +300,8 @@ pub struct Effect {
     pub read_schema: TableSchema,
     /// rewrites physical order (rows move)
     pub reorders: bool,
+    /// column values rewritten in place (sub-schema merge_insert): rows keep their addresses
+    pub in_place: bool,
 }
 
 impl Effect {
@@ -769,6 +771,12 @@ impl World {
                 return Ok(StepOutcome::NoOp);
             }
         }
+        if self.cfg.storage % 4 == 0 && self.cfg.stable_row_ids && !at.indices.is_empty() && matches!(step.op, Op::Delete { .. } | Op::Update { .. }) && self.known.contains("C16-legacy-stable-rowid-indexed-dml-panic") {
+            // Known finding: legacy storage + stable row ids + a scalar index: the second indexed DELETE / UPDATE panics
+            // ("row id missing from index"): the index still answers with the ids of rows deleted before.
+            obs.known_hit("C16-legacy-stable-rowid-indexed-dml-panic", format!("{} on an indexed legacy table with stable row ids skipped", step.op.kind()));
+            return Ok(StepOutcome::NoOp);
+        }
         // Known finding C13-immediate-remap-after-deferred: a compaction that remaps indices immediately, run after a
         // compaction with deferred remap, drops the rows of the twice-moved fragments from the index.  With the
         // finding listed such compactions are generated as deferred ones instead.
@@ -786,10 +794,13 @@ impl World {
                 step = &step_owned;
             }
         }
-        if matches!(step.op, Op::OptimizeIndices { .. }) && self.cfg.stable_row_ids && !self.stale_indexed_cols.is_empty() && self.known.contains("C19-stale-index-after-update-stable-rowids") {
+        if matches!(step.op, Op::OptimizeIndices { .. })
+            && !self.stale_indexed_cols.is_empty()
+            && ((self.cfg.stable_row_ids && self.known.contains("C19-stale-index-after-update-stable-rowids")) || (!self.cfg.stable_row_ids && self.known.contains("C19-stale-index-after-inplace-rewrite")))
+        {
             // Known finding: with stable row ids, optimize_indices merges the old entries of rewritten rows into the
             // new index segment, which then answers with their old values.
-            obs.known_hit("C19-stale-index-after-update-stable-rowids", format!("optimize_indices skipped; rewritten indexed columns {:?}", self.stale_indexed_cols));
+            obs.known_hit(if self.cfg.stable_row_ids { "C19-stale-index-after-update-stable-rowids" } else { "C19-stale-index-after-inplace-rewrite" }, format!("optimize_indices skipped; rewritten indexed columns {:?}", self.stale_indexed_cols));
             return Ok(StepOutcome::NoOp);
         }
         let (res, effect) = self.run_op(&step.op, &mut handle, &at, stale, obs).await?;
@@ -841,7 +852,7 @@ impl World {
                 self.versions.insert(now, new_state);
                 self.latest = now;
                 self.last_effect = Some(effect.clone());
-                if !effect.update.is_empty() && self.cfg.stable_row_ids {
+                if !effect.update.is_empty() && (self.cfg.stable_row_ids || effect.in_place) {
                     let idx_cols: Vec<String> = self.versions[&before_latest].indices.values().cloned().collect();
                     self.stale_indexed_cols.extend(idx_cols);
                 }
@@ -1565,6 +1576,7 @@ impl World {
             obs.label("merge-null-key");
         }
         obs.label(format!("merge-m{}-i{}-d{}{}", matched_mode, m.insert_not_matched as u8, m.by_source % 3, if partial_cols.is_some() { "-partial" } else { "" }));
+        e.in_place = partial_cols.is_some();
         if n_upd > 0 && n_ins > 0 {
             obs.label("merge-updates-and-inserts");
         }
@@ -1868,6 +1880,31 @@ pub async fn check_indexed_queries_opts(ds: &Dataset, st: &VersionState, seeds: 
 /// that contains a comparison and its complement on the same column (`x <> a OR ... OR x = a`) to TRUE even when
 /// x is nullable.  True if `p` contains such a pair (same column, same literal, complementary operators) or the
 /// AND-dual, on a nullable column.
+/// Known finding C16-legacy-inlist-contradiction: on the legacy (0.1) storage path a column that appears in an IN list
+/// and in another atom of the same predicate is mis-simplified whatever its nullability
+/// (`NOT (x IN (5)) AND x IN (5)` returns the rows with x = 5).
+pub fn inlist_pair_risk(p: &BExpr) -> bool {
+    fn walk(p: &BExpr, out: &mut std::collections::BTreeMap<String, (usize, usize)>) {
+        match p {
+            BExpr::Cmp { col, .. } | BExpr::Between { col, .. } => out.entry(col.clone()).or_insert((0, 0)).0 += 1,
+            BExpr::InList { col, .. } => {
+                let e = out.entry(col.clone()).or_insert((0, 0));
+                e.0 += 1;
+                e.1 += 1;
+            }
+            BExpr::Not(a) => walk(a, out),
+            BExpr::And(a, b) | BExpr::Or(a, b) => {
+                walk(a, out);
+                walk(b, out);
+            }
+            _ => {}
+        }
+    }
+    let mut m = std::collections::BTreeMap::new();
+    walk(p, &mut m);
+    m.values().any(|(atoms, lists)| *lists >= 1 && *atoms >= 2)
+}
+
 pub fn tautology_risk(p: &BExpr, schema: &TableSchema) -> bool {
     // observed trigger: a nullable column that appears in an IN / NOT IN list and in at least one more
     // comparison or list of the same expression (the simplifier's in-list merging rules ignore NULL)
@@ -1889,5 +1926,8 @@ pub fn tautology_risk(p: &BExpr, schema: &TableSchema) -> bool {
     }
     let mut m = std::collections::BTreeMap::new();
     walk(p, &mut m);
-    m.iter().any(|(col, (atoms, lists))| *lists >= 1 && *atoms >= 2 && schema.col(col).map(|(_, c)| c.nullable).unwrap_or(false))
+    // (first observed on nullable columns only - hence the finding's name - but `NOT (x IN (5)) AND x IN (5)` is folded
+    // wrongly on non-nullable columns as well: finding C16-inlist-contradiction; the shape is excluded for both)
+    let _ = schema;
+    m.iter().any(|(_col, (atoms, lists))| *lists >= 1 && *atoms >= 2)
 }
